@@ -197,12 +197,15 @@ TryCommit(w, s, r) ==
            ELSE UNION {BeginNextRound(w, [s EXCEPT !.cands = @ \cup {v}, !.proposal = v]) : v \in vals}
      ELSE {s}
 
+\* the CONVERGE filter (isValidConvergeValue): a candidate, or a value that carries the proof of a PREPARE quorum and may already have
+\* been decided by somebody in the previous round (1/3 adversary slack)
+ConvOK(w, s, r, v, j) == v \in s.cands \/ (j.ph = "PREPARE" /\ CouldReach(w, r - 1, "COMMIT", v, TRUE))
 TryConverge(w, s) ==
   IF ~s.timedOut THEN {s}
   ELSE
   LET r == s.round
       wp == [w EXCEPT !.R = w.R]
-      ok(v, j) == v \in s.cands \/ (j.ph = "PREPARE" /\ CouldReach(w, r - 1, "COMMIT", v, TRUE))
+      ok(v, j) == ConvOK(w, s, r, v, j)
       opts == UNION {{<<v, j>> : j \in {x \in ConvJusts(w, s, r, v) : ok(v, x)}} : v \in ConvVals(w, s, r)}
       ranks == {ConvRank(w, r, o[1]) : o \in opts}
       bestRank == CHOOSE x \in ranks : \A y \in ranks : x <= y
